@@ -71,12 +71,16 @@ def run(ctx):
         want_ok = pat[k] == "A"
         if line.startswith("ok;") != want_ok:
             T.fail("spec", pub, "connected" if want_ok else "raises", line[:80], {"site": "_open_socket", "cls": "outcome"})
+        from websocket._socket import DEFAULT_SOCKET_OPTION
         for s in tried:
             ops = [o[0] for o in s.oplog]
-            if ops[:2] != ["create", "settimeout"] or ("settimeout", 7) not in s.oplog or "connect" not in ops \
-                    or ops.index("connect") < max(i for i, o in enumerate(ops) if o == "setsockopt"):
-                T.fail("spec", pub, "timeout and options applied to every socket before connect", str(s.oplog)[:200],
-                       {"site": "_open_socket", "cls": "socket-not-prepared"})
+            setopts = [tuple(o[1:]) for o in s.oplog if o[0] == "setsockopt"]
+            want_opts = [tuple(o) for o in DEFAULT_SOCKET_OPTION] + [tuple(o) for o in sc["sockopt"]]
+            before_connect = "connect" in ops and all(i < ops.index("connect") for i, o in enumerate(ops) if o in ("settimeout", "setsockopt"))
+            if ops[:1] != ["create"] or ("settimeout", 7) not in s.oplog or setopts != want_opts or not before_connect:
+                T.fail("spec", dict(pub, socket_index=s.index), "timeout, default and configured options applied to every socket tried, before connect",
+                       str(s.oplog)[:260], {"site": "_open_socket", "cls": "socket-not-prepared", "first": s.index == 0},
+                       what="a socket was tried without the timeout / default / configured socket options")
                 break
             if s.outcome != "A" and s.closed < 1:
                 T.fail("spec", pub, "failed sockets closed", str(s.oplog)[:200], {"site": "_open_socket", "cls": "failed-socket-not-closed"})
